@@ -508,6 +508,27 @@ def shard_c06(spec, acc):
                         run_multi_source(ds, ds_b, acc, r2)
                     finally:
                         ds_b.close()
+                if i % 5 == 2:
+                    # two vendors for the same tickers and dates: the first-listed one has blank cells in its first rows,
+                    # the second has every cell (other prices) - the handler falls through exactly where the first has nothing
+                    sp_a = json.loads(json.dumps(ds.spec))
+                    sp_b = json.loads(json.dumps(ds.spec))
+                    for f in sp_a['files'].values():
+                        for r in f['rows'][:r2.randint(1, 2)]:
+                            r['open'] = r['close'] = r['adj'] = None
+                    for f in sp_b['files'].values():
+                        for k_, r in enumerate(f['rows']):
+                            r['open'] = round(900.0 + 3 * k_ + 0.25, 4)
+                            r['close'] = r['adj'] = round(900.0 + 3 * k_ + 1.5, 4)
+                            r.pop('volume', None)
+                    if any(len(f['rows']) >= 3 for f in sp_a['files'].values()):
+                        da, db = Dataset(r2, sp_a), Dataset(r2, sp_b)
+                        try:
+                            run_multi_source(da, db, acc, r2)
+                            acc.count('C06:two_vendor_pairs_with_leading_blanks_in_the_first')
+                        finally:
+                            da.close()
+                            db.close()
                 if i % 3 == 1:
                     # same directory path, same constructor arguments, new file content: a NEW source object must
                     # answer from the new rows (nothing keyed on the path may survive)
